@@ -239,6 +239,53 @@ func runReifyInput(rep *Report, in ReifyInput, cf *CaseFile) {
 			}
 		}
 	}
+	// hostile file nodes: every operation returns a value or an error
+	if o.Class == "ok" && cls == 2 {
+		ops := map[string]func() error{
+			"AsBytes": func() error { _, err := out.AsBytes(); return err },
+			"read-all": func() error {
+				l, ok := out.(lbn)
+				if !ok {
+					return nil
+				}
+				r, err := l.AsLargeBytes()
+				if err != nil {
+					return err
+				}
+				buf := make([]byte, 7)
+				for i := 0; i < 10000; i++ {
+					if _, err := r.Read(buf); err != nil {
+						return nil
+					}
+				}
+				return fmt.Errorf("read does not end")
+			},
+			"seeks": func() error {
+				l, ok := out.(lbn)
+				if !ok {
+					return nil
+				}
+				r, err := l.AsLargeBytes()
+				if err != nil {
+					return err
+				}
+				buf := make([]byte, 3)
+				for _, sk := range [][2]int64{{0, 2}, {-1, 2}, {-5, 0}, {1 << 40, 0}, {-1 << 40, 1}, {3, 0}, {-2, 1}, {1, 2}} {
+					r.Seek(sk[0], int(sk[1]))
+					r.Read(buf)
+				}
+				return nil
+			},
+		}
+		for name, f := range ops {
+			oo := guard(f)
+			if oo.Class == "panic" {
+				fail("C13", "file-op-panic-"+name, "an operation on a reified file node panicked", "value or error", "panic")
+			} else if name == "read-all" && oo.Class == "other" {
+				fail("C13", "file-read-unbounded", "reading a reified file node does not end", "EOF or error", "still reading")
+			}
+		}
+	}
 	if cf != nil && o.Class != "panic" {
 		var term string
 		if in.NonPb != "" {
@@ -301,6 +348,11 @@ func scnReify(rep *Report, rng *Rng, tier string, outdir string) {
 	// files with sizes for their links
 	add(ufsData(2, nil, false, u(5), []uint64{2, 3}, nil, nil), true, "file-sized")
 	add(ufsData(2, nil, false, nil, nil, nil, nil), true, "file-unsized")
+	for i, fsz := range []uint64{1 << 63, 1<<64 - 1, 1 << 62, 1 << 56, 1<<64 - 1048576, 0, 4} {
+		add(ufsData(2, nil, false, u(fsz), []uint64{2, 3}, nil, nil), true, fmt.Sprintf("file-lying-size-%d", i))
+		add(ufsData(2, nil, false, u(fsz), []uint64{1 << 63, 1<<64 - 1}, nil, nil), true, fmt.Sprintf("file-lying-blocksizes-%d", i))
+	}
+	add(ufsData(2, nil, false, u(5), []uint64{2}, nil, nil), true, "file-short-blocksizes")
 	linkSets := [][]RLink{
 		nil,
 		{{Name: s(""), Tsize: i64(2), Content: "ab"}, {Name: s(""), Tsize: i64(3), Content: "cde"}},
